@@ -58,6 +58,42 @@ mod h {
     destruction_order!(c11_u1_destruction_order_210, [2, 1, 0]);
 
 
+    /// the pinned code calls std::alloc::alloc / dealloc with a zero-size layout for a constant of a
+    /// zero-sized type (formally outside GlobalAlloc's contract; the system allocator returns a
+    /// pointer). That is not what C11 is about, so the allocator calls are modelled as: size 0 ->
+    /// dangling aligned pointer / no-op.
+    unsafe fn alloc_model(layout: Layout) -> *mut u8 {
+        if layout.size() == 0 {
+            layout.align() as *mut u8
+        } else {
+            unsafe { std::alloc::alloc_zeroed(layout) }
+        }
+    }
+    unsafe fn dealloc_model(ptr: *mut u8, layout: Layout) {
+        if layout.size() != 0 {
+            unsafe { std::alloc::dealloc(ptr, layout) }
+        }
+    }
+
+    /// a script constant of a zero-sized type is still dropped exactly once (its drop function runs)
+    #[kani::proof]
+    #[kani::unwind(5)]
+    #[kani::stub(std::alloc::alloc, alloc_model)]
+    #[kani::stub(std::alloc::dealloc, dealloc_model)]
+    fn c11_u1_zero_sized_constant() {
+        reset();
+        let roto_constants = HashMap { vals: [Some(RotoConstant::new(0, 1, const_drop)), None], _k: PhantomData };
+        let constants = HashMap { vals: [None, None], _k: PhantomData };
+        let package = SharedModuleData::new(JITModule, constants, roto_constants, Vec::new());
+        let h1 = handle(&package);
+        drop(package);
+        assert!(count(CONST_DROP_FN) == 0 && count(FREE_MEMORY) == 0, "OBL:C11.drop.zero_sized_constant_kept_while_a_handle_lives");
+        drop(h1);
+        assert!(count(CONST_DROP_FN) == 1, "OBL:C11.drop.zero_sized_constant_dropped_exactly_once");
+        assert!(count(FREE_MEMORY) == 1 && unsafe { CONST_DROPS_AT_FREE } == 1, "OBL:C11.drop.zero_sized_constant_dropped_before_machine_code_is_freed");
+        kani::cover!(true, "COV:C11.drop.zero_sized_reached");
+    }
+
     enum Owner {
         Package(SharedModuleData),
         Handle(TypedFunc<(), fn()>),
